@@ -311,8 +311,10 @@ func convertIntoMapping(a any, defaultValue map[string]any, p tree.Path) (map[st
 			}
 		}
 		return converted, nil
+	case nil:
+		return map[string]any{}, nil
 	}
-	return nil, nil
+	return nil, fmt.Errorf("%s: unexpected type %T", p, a)
 }
 
 func copyMap(m map[string]any) map[string]any {
